@@ -125,9 +125,11 @@ func (node *OuterJoin) Typecheck(ctx context.Context, env physical.Environment, 
 
 	return physical.Node{
 		Schema: physical.Schema{
-			Fields:        outSchemaFields,
-			TimeField:     left.Schema.TimeField,
-			NoRetractions: left.Schema.NoRetractions && right.Schema.NoRetractions,
+			Fields:    outSchemaFields,
+			TimeField: left.Schema.TimeField,
+			// An outer join retracts the NULL-padded row of a record when the first match for its key arrives
+			// later, so its output contains retractions even when neither input does.
+			NoRetractions: left.Schema.NoRetractions && right.Schema.NoRetractions && !node.isLeft && !node.isRight,
 		},
 		NodeType: physical.NodeTypeOuterJoin,
 		OuterJoin: &physical.OuterJoin{
